@@ -103,6 +103,14 @@ def make_flaky_converter():
 def build_app(asgi=False, flaky=False, variant=0, applock=False):
     lock = TS.CoopLock() if applock else None      # an application-level lock (cooperative under the controlled scheduler)
 
+    def _stamp(req, resp):
+        # some responses carry a session cookie / an appended raw header of their own, others none at all
+        tok = str(getattr(req.context, 'tok', None))
+        if tok[-1:] in '02468ace':
+            resp.set_cookie('sid', tok)
+        if tok[-1:] in '0369cf':
+            resp.append_header('X-Extra', tok)
+
     class Mw:
         def process_request(self, req, resp):
             req.context.tok = req.get_header('X-Tok')
@@ -115,6 +123,7 @@ def build_app(asgi=False, flaky=False, variant=0, applock=False):
 
         def process_response(self, req, resp, resource, req_succeeded):
             resp.set_header('X-Echo', str(getattr(req.context, 'tok', None)))
+            _stamp(req, resp)
             if getattr(req.context, 'holds', False):
                 req.context.holds = False
                 lock.release()
@@ -126,6 +135,7 @@ def build_app(asgi=False, flaky=False, variant=0, applock=False):
 
         async def process_response(self, req, resp, resource, req_succeeded):
             resp.set_header('X-Echo', str(getattr(req.context, 'tok', None)))
+            _stamp(req, resp)
 
     def common(req, route, **kw):
         d = {'route': route, 'q': req.get_param('q'), 'qs': req.get_param_as_list('l'), 'h': req.get_header('X-Tok'),
@@ -360,7 +370,8 @@ def wsgi_call(app, r):
         raise res.exc
     if res.exc is not None:
         return ('escaped', repr(res.exc))
-    return (res.status, res.header('x-echo'), res.header('content-type'), res.body, tuple(res.problems))
+    return (res.status, res.header('x-echo'), res.header('content-type'), res.body, tuple(res.problems),
+            tuple(res.header_values('set-cookie')), tuple(res.header_values('x-extra')))
 
 
 def serial_vectors(build, reqs, call, isolated=True, post=()):
@@ -537,7 +548,8 @@ class AsgiConn:
 
 
 def asgi_vector(res):
-    return (res.status, res.header('x-echo'), res.header('content-type'), res.body, tuple(res.problems))
+    return (res.status, res.header('x-echo'), res.header('content-type'), res.body, tuple(res.problems),
+            tuple(res.header_values('set-cookie')), tuple(res.header_values('x-extra')))
 
 
 def asgi_serial_call(app, r):
@@ -940,28 +952,37 @@ def run(rec):
     #      DIFFERENT wrapper over one shared read-modify-write state; the responses must be those of some serial order
     import asyncio as _aio
     import time as _time
+    ledger = {'v': 100}
+    ran = []
+
+    def deposit(n):
+        cur = ledger['v']
+        _time.sleep(0.003)
+        ledger['v'] = cur + n
+        return ledger['v']
+
+    def withdraw(n):
+        cur = ledger['v']
+        _time.sleep(0.003)
+        ledger['v'] = cur - n
+        return ledger['v']
+    ops = {'dep': falcon.wrap_sync_to_async(deposit, threadsafe=False),
+           'wd': falcon.wrap_sync_to_async(withdraw, threadsafe=False)}
+
+    class Ledger:
+        async def on_post(self, req, resp, op):
+            resp.media = {'v': await ops[op](req.get_param_as_int('n'))}
+
+            async def after():          # work scheduled to run once the response was sent
+                ran.append(op)
+            resp.schedule(after)
+    # ONE app object for the whole phase, served by a fresh event loop in every round (a new asyncio.run() per
+    # test, a server restarting its loop): nothing of an earlier loop may stick to the app
+    wapp = falcon.asgi.App()
+    wapp.add_route('/l/{op}', Ledger())
     for k in range(4 if quick else 30):
-        ledger = {'v': 100}
-
-        def deposit(n):
-            cur = ledger['v']
-            _time.sleep(0.003)
-            ledger['v'] = cur + n
-            return ledger['v']
-
-        def withdraw(n):
-            cur = ledger['v']
-            _time.sleep(0.003)
-            ledger['v'] = cur - n
-            return ledger['v']
-        ops = {'dep': falcon.wrap_sync_to_async(deposit, threadsafe=False),
-               'wd': falcon.wrap_sync_to_async(withdraw, threadsafe=False)}
-
-        class Ledger:
-            async def on_post(self, req, resp, op):
-                resp.media = {'v': await ops[op](req.get_param_as_int('n'))}
-        wapp = falcon.asgi.App()
-        wapp.add_route('/l/{op}', Ledger())
+        ledger['v'] = 100
+        del ran[:]
 
         async def one(op, n):
             sent = []
@@ -983,7 +1004,10 @@ def run(rec):
             return json.loads(body)['v']
 
         async def both():
-            return await _aio.gather(one('dep', 30), one('wd', 70))
+            out = await _aio.gather(one('dep', 30), one('wd', 70))
+            for _ in range(10):         # let the scheduled callbacks run
+                await _aio.sleep(0)
+            return out
         loop = _aio.new_event_loop()
         try:
             got = tuple(loop.run_until_complete(_aio.wait_for(both(), 30)))
@@ -1000,6 +1024,8 @@ def run(rec):
         if got not in ((130, 60), (60, 30)):
             rec.violation('serial-executor-results-not-serializable', {'phase': 'W', 'start': 100, 'deposit': 30, 'withdraw': 70,
                                                                        'got': got, 'serial_orders': [[130, 60], [60, 30]]})
+        if got in ((130, 60), (60, 30)) and sorted(ran) != ['dep', 'wd']:
+            rec.violation('scheduled-callbacks-did-not-run-once-each', {'phase': 'W', 'round': k, 'ran': list(ran)})
         rec.case(('W', k))
     # ---- phase D: unsupervised stress (real preemption, tiny switch interval)
     old = sys.getswitchinterval()
